@@ -96,6 +96,11 @@ type c18Case struct {
 	Ctor int `json:"ctor,omitempty"`
 	// Before: the instances are configured with a BeforeFunc (counted)
 	Before bool `json:"before,omitempty"`
+	// Many > 0: "many identifiers" case (oracle only, one store): 8 victims use up their burst at T0; then
+	// Many other identifiers arrive one after the other (1 us apart, starting one second later), each with one
+	// call; at checkpoints (table sizes 1000, 1024, 4096, 10000, 16384, 32768, 65535..65537, 100000, 131072, ...)
+	// a victim that has not been seen since T0 (and victim 0, seen at every checkpoint) asks again burst+1 times
+	Many int `json:"many,omitempty"`
 	// NilStore: RateLimiterWithConfig without a Store: the constructor must panic (oracle only)
 	NilStore bool `json:"nil_store,omitempty"`
 	// Stress (frozen clock): StressG goroutines per identifier call Store.Allow at the same
@@ -1003,6 +1008,136 @@ func (c *c18Case) valid() bool {
 	return true
 }
 
+var c18Checkpoints = []int{1, 100, 1000, 1023, 1024, 1025, 4096, 10000, 16384, 32768, 50000, 65528, 65535, 65536, 65537, 65600, 100000, 131072, 131073, 200000, 262144, 262145}
+
+// c18RunMany: tens of thousands of live identifiers in one store.  However many identifiers the store
+// tracks, an identifier's allowance is its own: a victim that used up its burst at T0 and earned less than one
+// token since must still be refused (window bound on its own admitted calls), and every first-time identifier
+// gets its first request through (burst >= 1).  O(Many) work; no model comparison.
+func c18RunMany(c *c18Case) Result {
+	sp := c.sp0()
+	if c.Many > 400000 || c.S2 != nil || sp.effBurst() < 1 || sp.effBurst() > 64 || !sp.hexp() || len(c.Evs) != 0 {
+		return Result{Tags: []string{"invalid-case"}}
+	}
+	const victims = 8
+	span := c18Second + int64(c.Many)*1000 + 1000
+	if sp.effExpires() <= span {
+		return Result{Tags: []string{"invalid-case"}} // a regular sweep could forget a victim legitimately
+	}
+	var oracle string
+	fail := func(s string) {
+		if oracle == "" {
+			oracle = s
+		}
+	}
+	func() {
+		defer func() {
+			if r := recover(); r != nil {
+				fail(fmt.Sprint("panic: ", r))
+			}
+		}()
+		st := sp.build()
+		cur := c.T0
+		middleware.VerifSetClock(st, func() time.Time { return c18Base.Add(time.Duration(cur)) })
+		burst := sp.effBurst()
+		adm := make([][]int64, victims)
+		probe := func(v int, live int) {
+			id := fmt.Sprintf("victim-%d", v)
+			for k := int64(0); k < burst+1; k++ {
+				ok, _ := st.Allow(id)
+				if ok {
+					adm[v] = append(adm[v], cur)
+					if w := c18Window(sp, adm[v], 1); w != "" {
+						fail(fmt.Sprintf("window: identifier %q with %d other identifiers tracked by the store: %s", id, live, w))
+					}
+				} else if c18RefusalUnjustified(sp, adm[v], cur) {
+					fail(fmt.Sprintf("refusal: identifier %q refused at %d ns with %d other identifiers tracked although no window of its own admitted requests is used up", id, cur, live))
+				}
+			}
+		}
+		for v := 0; v < victims; v++ {
+			probe(v, 0)
+		}
+		next := 1 // the next victim that has not been seen since T0
+		cp := 0
+		for i := 0; i < c.Many && oracle == ""; i++ {
+			cur = c.T0 + c18Second + int64(i)*1000
+			if ok, _ := st.Allow("m-" + wInt(i)); !ok {
+				fail(fmt.Sprintf("refusal: first-time identifier \"m-%d\" (number %d in the store) refused although burst is %d", i, i+victims+1, burst))
+			}
+			for cp < len(c18Checkpoints) && c18Checkpoints[cp] < i+1+victims {
+				cp++
+			}
+			if cp < len(c18Checkpoints) && c18Checkpoints[cp] == i+1+victims {
+				// the table holds exactly c18Checkpoints[cp] identifiers now
+				probe(0, i+1)
+				if next < victims {
+					probe(next, i+1)
+					next++
+				}
+			}
+		}
+		cur += 1000
+		for v := 0; v < victims && oracle == ""; v++ {
+			probe(v, c.Many)
+		}
+	}()
+	return Result{Oracle: oracle, Tags: []string{fmt.Sprintf("many-identifiers-%dk", (c.Many+999)/1000)}, Nontrivial: true}
+}
+
+// c18GenMany: big = tens of thousands of identifiers (oracle only)
+func c18GenMany(r *rand.Rand, n int) *c18Case {
+	c := &c18Case{T0: int64(r.Intn(1000000000)), Many: n}
+	switch r.Intn(3) {
+	case 0: // rate 0.01/s, burst 1..3, default ExpiresIn (3 min >= burst/rate needs burst <= 1)
+		c.RateNum, c.RateDen, c.Burst, c.ExpiresIn = 1, 100, 1, 0
+	case 1:
+		c.RateNum, c.RateDen, c.Burst, c.ExpiresIn = 1, 1000, 1+r.Intn(3), 3600*c18Second
+	default:
+		c.RateNum, c.RateDen, c.Burst, c.ExpiresIn = 1, 50, 2+r.Intn(3), 600*c18Second
+	}
+	return c
+}
+
+// c18GenManySmall: a few hundred to a few thousand identifiers through one store as an ordinary history
+// (compared with the model, all oracles): early identifiers use up their burst, a crowd of first-time
+// identifiers follows, the early ones come back
+func c18GenManySmall(r *rand.Rand, n int) *c18Case {
+	c := &c18Case{Exact: true, RateDen: 16, RateNum: int64(1 + r.Intn(8)), Burst: 1 + r.Intn(3)}
+	c.T0 = int64(r.Intn(1000)) * c18Tick
+	c.ExpiresIn = 0
+	if r.Intn(2) == 0 {
+		c.ExpiresIn = (int64(c.Burst)*16*c18Second/c.RateNum/c18Tick + 1 + int64(r.Intn(200000))) * c18Tick
+	}
+	if !c.hexp() {
+		c.ExpiresIn = 0
+		c.Burst = 1
+		c.RateNum = 8
+	}
+	t := c.T0
+	early := 2 + r.Intn(4)
+	for v := 0; v < early; v++ {
+		for k := 0; k <= c.Burst; k++ {
+			c.Evs = append(c.Evs, c18Ev{T: t, Kind: c18Direct, ID: fmt.Sprintf("early-%d", v)})
+		}
+	}
+	t += 512 * c18Tick
+	for i := 0; i < n; i++ {
+		if i%4 == 0 {
+			t += c18Tick
+		}
+		c.Evs = append(c.Evs, c18Ev{T: t, Kind: c18Direct, ID: "m-" + wInt(i)})
+		if i == n/2 || i == n-1 {
+			for v := 0; v < early; v++ {
+				for k := 0; k <= c.Burst; k++ {
+					c.Evs = append(c.Evs, c18Ev{T: t, Kind: c18Direct, ID: fmt.Sprintf("early-%d", v)})
+				}
+			}
+		}
+	}
+	return c
+}
+
 // c18RunNilStore: RateLimiterWithConfig must refuse a configuration without a Store
 func c18RunNilStore(c *c18Case) Result {
 	panicked := false
@@ -1028,6 +1163,11 @@ func c18Run(ci any) Result {
 	}
 	if c.NilStore {
 		return c18RunNilStore(c)
+	}
+	if c.Many > 0 {
+		c18Alone.RLock()
+		defer c18Alone.RUnlock()
+		return c18RunMany(c)
 	}
 	c18Alone.RLock()
 	res := c18RunLocked(c)
@@ -1103,7 +1243,7 @@ func c18Known(ci any, res Result, modelObs string) string {
 	if res.Ops != "" && res.Obs != modelObs {
 		return "" // the model does not reproduce it: something else is going on
 	}
-	if c.StressIDs > 0 || c.StressG > 0 || c.NilStore || !c.valid() {
+	if c.StressIDs > 0 || c.StressG > 0 || c.NilStore || c.Many > 0 || !c.valid() {
 		return ""
 	}
 	if c.Skew {
@@ -1799,6 +1939,20 @@ func c18Gen(r *rand.Rand, tier string) []any {
 		out = append(out, c18GenStress(r))
 	}
 	out = append(out, &c18Case{RateNum: 1, RateDen: 1, NilStore: true})
+	// many identifiers in one store
+	if tier == "thorough" {
+		for _, n := range []int{70000, 66000, 140000, 270000, 70000, 12000, 35000, 66000} {
+			out = append(out, c18GenMany(r, n))
+		}
+		for i := 0; i < 12; i++ {
+			out = append(out, c18GenManySmall(r, 300+r.Intn(2200)))
+		}
+	} else {
+		out = append(out, c18GenMany(r, 66000+r.Intn(3000)), c18GenMany(r, 5000+r.Intn(15000)))
+		for i := 0; i < 3; i++ {
+			out = append(out, c18GenManySmall(r, 300+r.Intn(900)))
+		}
+	}
 	return out
 }
 
@@ -1807,6 +1961,17 @@ func c18Shrink(ci any) []any {
 	var out []any
 	if c.StressIDs > 0 {
 		return nil // schedule dependent: keep the case as generated
+	}
+	if c.Many > 0 {
+		// fewer identifiers (the failure may need a table size: keep the checkpoints' neighbourhood)
+		for _, m := range []int{c.Many / 2, c.Many - c.Many/8, c.Many - 1000, c.Many - 1} {
+			if m > 0 && m < c.Many {
+				d := *c
+				d.Many = m
+				out = append(out, &d)
+			}
+		}
+		return out
 	}
 	if c.NilStore {
 		return nil
@@ -1900,7 +2065,7 @@ func c18Shrink(ci any) []any {
 func init() {
 	register(&Prop{
 		ID:             "C18",
-		Rule:           "3/5 exact stream (rate k/2^j, instants multiples of 2^-9 s: float64 arithmetic of x/time/rate is exact, decisions compared with the Lean model), 2/5 arbitrary stream (rate p/q, ns instants, incl. the F11 arrival pattern floor(i/rate): oracles only), plus high-rate exact cases where the 1 ns truncation slack shows, plus a skew stream (concurrent Store.Allow goroutines on a clock monotone in start order, some held by channels between their clock reading and AllowN while 1-3 later calls complete: out-of-order readings at the limiter, finding F19; compared with the model in AllowN order and checked against the allowance of C18_skew_bucket), plus a frozen-clock stress stream (4-15 fresh identifiers x 8-31 goroutines released together: at most / exactly burst admissions per identifier on any schedule; oracle only); a third of the middleware cases use custom Deny/ErrorHandlers (writing 429/403 and returning nil, or returning their own HTTPError); 1-4 identifiers (a fifth of the cases: 65-200 byte identifiers sharing their first 64+ bytes, differing only in the last byte, or one a prefix of the other), bursts at one instant, arrivals at/next to the refill interval, idle gaps at ExpiresIn-1,+0,+1 unit and beyond (cleanup), returns after being forgotten; ExpiresIn tight (=burst/rate), wider, default, or (exact stream only, tie only) violating ExpiresIn*rate>=burst; requests direct to Store.Allow or through the middleware (extractor error, skipper, default RealIP extractor); the middleware instances are built with RateLimiterWithConfig (with Skipper, or a hand-built config with nil Skipper; a quarter with a counted BeforeFunc) or with the convenience constructor RateLimiter(store); stores with NewRateLimiterMemoryStoreWithConfig or NewRateLimiterMemoryStore(rate); a quarter of the cases have a SECOND store with other parameters in the same process and send the requests over routes behind one limiter, a coarse limiter on the group + a strict one on the route, two limiters on one route in the other order, or two instances sharing one store (a sixth of the single-store cases use that route too), with direct calls to either store, plus a two-store expiry probe (an identifier is swept at one store, then first-time identifiers arrive at the other store with more than its burst); the Allow calls of every store are recorded: window / refusal / independence per store on its own trace, isolation = the decisions of every store re-run on a store of its own, middleware = the chain is consulted in order, each instance once, nothing behind the first refusal; one case per run checks that a config without Store is refused; non-trivial = some identifier is admitted again after a refusal, or returns after a gap longer than ExpiresIn; distinct = distinct model op lines / cases",
+		Rule:           "3/5 exact stream (rate k/2^j, instants multiples of 2^-9 s: float64 arithmetic of x/time/rate is exact, decisions compared with the Lean model), 2/5 arbitrary stream (rate p/q, ns instants, incl. the F11 arrival pattern floor(i/rate): oracles only), plus high-rate exact cases where the 1 ns truncation slack shows, plus a skew stream (concurrent Store.Allow goroutines on a clock monotone in start order, some held by channels between their clock reading and AllowN while 1-3 later calls complete: out-of-order readings at the limiter, finding F19; compared with the model in AllowN order and checked against the allowance of C18_skew_bucket), plus a frozen-clock stress stream (4-15 fresh identifiers x 8-31 goroutines released together: at most / exactly burst admissions per identifier on any schedule; oracle only); a third of the middleware cases use custom Deny/ErrorHandlers (writing 429/403 and returning nil, or returning their own HTTPError); 1-4 identifiers (a fifth of the cases: 65-200 byte identifiers sharing their first 64+ bytes, differing only in the last byte, or one a prefix of the other), bursts at one instant, arrivals at/next to the refill interval, idle gaps at ExpiresIn-1,+0,+1 unit and beyond (cleanup), returns after being forgotten; ExpiresIn tight (=burst/rate), wider, default, or (exact stream only, tie only) violating ExpiresIn*rate>=burst; requests direct to Store.Allow or through the middleware (extractor error, skipper, default RealIP extractor); the middleware instances are built with RateLimiterWithConfig (with Skipper, or a hand-built config with nil Skipper; a quarter with a counted BeforeFunc) or with the convenience constructor RateLimiter(store); stores with NewRateLimiterMemoryStoreWithConfig or NewRateLimiterMemoryStore(rate); a quarter of the cases have a SECOND store with other parameters in the same process and send the requests over routes behind one limiter, a coarse limiter on the group + a strict one on the route, two limiters on one route in the other order, or two instances sharing one store (a sixth of the single-store cases use that route too), with direct calls to either store, plus a two-store expiry probe (an identifier is swept at one store, then first-time identifiers arrive at the other store with more than its burst); the Allow calls of every store are recorded: window / refusal / independence per store on its own trace, isolation = the decisions of every store re-run on a store of its own, middleware = the chain is consulted in order, each instance once, nothing behind the first refusal; one case per run checks that a config without Store is refused; plus a many-identifiers stream: 3 (thorough: 12) ordinary histories with 300-2500 first-time identifiers between the exhaustion and the return of early identifiers (compared with the model), and 2 (thorough: 8) big cases with 5k-69k (thorough: up to 270k) live identifiers in one store, 8 victims exhausted at T0 and re-probed when the table holds exactly 1000, 1024, 4096, 10000, 16384, 32768, 65535..65537, 100000, 131072, ... identifiers (oracle only: window / refusal on the victims, every first-time identifier admitted); non-trivial = some identifier is admitted again after a refusal, or returns after a gap longer than ExpiresIn; distinct = distinct model op lines / cases",
 		New:            func() any { return &c18Case{} },
 		Gen:            c18Gen,
 		Run:            c18Run,
